@@ -212,3 +212,126 @@ class CandidateStream(Stream):
 
     def nontrivial(self, case, out):
         return repr((case['q'], case['r'], case['rev'], case['peaks'], case.get('shift', 0), len(case['qry']))) if out['pairs'] else None
+
+
+# ------------------------------------------------------------------------------------------------ whole-run model (Coordinator.v)
+RUN_PRELUDE = pl.PRELUDE + '''Require Import Coordinator.
+Notation crow := (Z * Z * bool * (Z*Z*Z*Z) * Z * bool * list (Z*Z))%type.
+Definition crow_of (w : row) : crow := (qid w, rid w, rrev w, (Multi.qs w, qe w, rs w, re w), conf w, rest w, site_pairs (rsegs w)).
+Fixpoint eqzz (a b : list (Z*Z)) := match a, b with [], [] => true | (x,y)::s, (x',y')::t => (x=?x')&&(y=?y')&&eqzz s t | _, _ => false end.
+Definition eqcrow (a b : crow) := match a, b with (q,r,v,(a1,a2,a3,a4),c,t,ps),(q',r',v',(b1,b2,b3,b4),c',t',ps') =>
+  (q=?q')&&(r=?r')&&Bool.eqb v v'&&(a1=?b1)&&(a2=?b2)&&(a3=?b3)&&(a4=?b4)&&(c=?c')&&Bool.eqb t t'&&eqzz ps ps' end.
+Fixpoint eqcrows (a b : list crow) := match a, b with [], [] => true | x::s, y::t => eqcrow x y && eqcrows s t | _, _ => false end.
+Definition eqfile (a : option (list row)) (b : option (list crow)) := match a, b with None, None => true | Some x, Some y => eqcrows (List.map crow_of x) y | _, _ => false end.
+Notation stab := (list ((Z*Z*Z) * list (Z * bool * list Z)))%type.
+Fixpoint ref_by_id (refs : list omap) (i : Z) : omap := match refs with [] => mkMap 0 0 [] 0 | r :: t => if mid r =? i then r else ref_by_id t i end.
+Fixpoint lookup (t : stab) (k : Z*Z*Z) : list (Z * bool * list Z) :=
+  match t with [] => [] | ((a,b,c), v) :: r => match k with (a',b',c') => if (a=?a')&&(b=?b')&&(c=?c') then v else lookup r k end end.
+Definition seeds_of (t : stab) (refs : list omap) (q : omap) : list cseed :=
+  List.map (fun e => match e with (i, rv, pk) => mkSeed (ref_by_id refs i) rv pk end) (lookup t (mid q, mshift q, Z.of_nat (List.length (mpositions q)))).
+Definition mode_of (m : Z) : mode := if m =? 0 then Best else if m =? 1 then Separate else if m =? 2 then Joined else All_.
+(* case: params, mode, maxdiff, refs (id, len, positions), queries (id, len, positions), seed table; expected: error flag, main, _1, _2 *)
+Notation rcase := ((Z*Z*Z*Z*Z*Z*Z*Z) * Z * Z * list (Z*Z*list Z) * list (Z*Z*list Z) * stab * (bool * list crow * option (list crow) * option (list crow)))%type.
+Definition check (c : rcase) : Z :=
+  match c with (p, m, maxdiff, refs, qs, t, (err, emain, e1, e2)) =>
+    let mk := List.map (fun x => match x with (i, l, ps) => mkMap i l ps 0 end) in
+    match program_run (mkparams p) (seeds_of t) (mode_of m) maxdiff (mk refs) (mk qs) with
+    | Err => if err then 0 else 1
+    | Ok o => if err then 1 else if eqcrows (List.map crow_of (o_main o)) emain && eqfile (o_1 o) e1 && eqfile (o_2 o) e2 then 0 else 1
+    end end.
+'''
+
+
+def dec_to_int(text, scale):
+    from decimal import Decimal
+    v = Decimal(text) * scale
+    if v != v.to_integral_value():
+        raise ValueError('%s is not a multiple of 1/%d' % (text, scale))
+    return int(v)
+
+
+def crow_term(r):
+    z, cb = common.z, common.cb
+    return '(%s,%s,%s,(%s,%s,%s,%s),%s,%s,%s)' % (
+        z(r['q']), z(r['r']), cb(r['ori'] == '-'), z(dec_to_int(r['qs'], 10)), z(dec_to_int(r['qe'], 10)), z(dec_to_int(r['rs'], 10)),
+        z(dec_to_int(r['re'], 10)), z(dec_to_int(r['conf'], 20)), cb(r['rest'] == 'True'),
+        common.clist('(%s,%s)' % (z(a), z(b)) for a, b in r['pairs']))
+
+
+def seed_table(out):
+    """(query id, shift, number of labels) -> [(reference id, strand, secondary peaks)] in the order of the selected primary peaks"""
+    corr = {}
+    rows = {}
+    for c in out['capture']:
+        k = (c['pid'], c['q'], c['shift'], c['index'])
+        if c['t'] == 'corr':
+            corr.setdefault(k, []).append(c)
+        else:
+            rows.setdefault(k, []).append(c)
+    tab = {}
+    for k, rl in rows.items():
+        cl = corr.get(k, [])
+        # a worker may process a prefix fragment (shift 0) of a query it also processed as a whole: pair them up in order
+        for c, r in zip(cl, rl):
+            tab.setdefault((r['q'], r['shift'], r['nq']), {})[r['index']] = (c['r'], c['rev'], [int(p) for p in c['peaks']])
+    return {k: [v[i] for i in sorted(v)] for k, v in tab.items()}
+
+
+class RunModelStream(Stream):
+    """whole runs: the Coordinator/MultiPass model, given the seeds captured from the real run, must reproduce every output file"""
+    name = 'e2e_run_model'
+    prelude = RUN_PRELUDE
+    case_type = 'rcase'
+    shard = 1
+    parallel = False
+    e2e_cls = E2EStream
+    modes = MODES
+
+    def gen(self, rng, tier):
+        src = self.e2e_cls()
+        src.seed = getattr(self, 'seed', 0)
+        cases = []
+        for c in src.gen(rng, tier):
+            out = src.impl(c)
+            for m in self.modes:
+                cases.append(dict(dataset=c, mode=m, recorded=dict(mode=out['modes'][m], refs=out['refs'], queries=out['queries'],
+                                                                    table=[[list(k), v] for k, v in seed_table(out).items()])))
+        return cases
+
+    def impl(self, case):
+        return case['recorded']
+
+    def term(self, case, out):
+        z, zl, cb, clist = common.z, common.zl, common.cb, common.clist
+        P = params_of(case['dataset']['extra'])
+        mo = out['mode']
+        err = mo['rc'] != 0
+
+        def mapterm(i, m, trim):
+            ps = m['labels']
+            if trim:
+                length = ps[-1] - ps[0] + 1; ps = [p - ps[0] for p in ps]
+            else:
+                length = int(m['end'])
+            return '(%s,%s,%s)' % (z(i), z(pl.r10(length)), zl(pl.r10(p) for p in ps))
+        refs = clist(mapterm(int(i), m, False) for i, m in sorted(out['refs'].items(), key=lambda kv: int(kv[0])))
+        qs = clist(mapterm(int(i), m, True) for i, m in sorted(out['queries'].items(), key=lambda kv: int(kv[0])))
+        tab = clist('((%s,%s,%s), %s)' % (z(k[0]), z(k[1]), z(k[2]), clist('(%s,%s,%s)' % (z(r), cb(rv), zl(p * 10 for p in pk)) for r, rv, pk in v))
+                    for k, v in out['table'])
+
+        def fileterm(fk, optional=True):
+            f = mo['files'].get(fk)
+            if f is None:
+                return 'None'
+            t = clist(crow_term(r) for r in f['rows'])
+            return 'Some %s' % t if optional else t
+        return '(%s, %s, %s, %s, %s, %s, (%s, %s, %s, %s))' % (
+            pl.params_term({k: P[k] for k in pl.DEFAULT}), z(MODES.index(case['mode'])), z(P['diff'] * 10), refs, qs, tab,
+            cb(err), fileterm('main', False) if not err else '[]', fileterm('_1'), fileterm('_2'))
+
+    def classify(self, case, out):
+        mo = out['mode']
+        return ['mode=' + case['mode']] + ['%s records=%d+' % (fk, 10 * (len(f.get('rows', [])) // 10)) for fk, f in mo['files'].items()]
+
+    def nontrivial(self, case, out):
+        return json.dumps([case['dataset'], case['mode']], sort_keys=True) if out['mode']['files'].get('main', {}).get('rows') else None
